@@ -52,6 +52,8 @@ def main():
             continue    # known finding (yields 0 first): reported by STEP-NONZERO, never pinned as a reference
         s, _ = summary.summarise(c, b)
         entry = dict(path=b.path, props=ps, summary=s.split('\n'))
+        if str(b.raw.get('vis', '')).startswith('Restricted') and not b.raw.get('impl_trait') and not (b.raw.get('trait') and not b.raw.get('impl')):
+            entry['private'] = True     # a private helper: if it disappears, its callers' summaries cover the behaviour
         cs = rules_sem.pure_lin_cases(c, b.path)
         if cs is not None:
             entry['cases'] = repr(cs)      # guarded linear cases: lets a textually different summary be proved equal
